@@ -251,6 +251,14 @@ func same(a, b *T) bool {
 	return Equal(a, b)
 }
 
+// single replaces a term whose interval is one value by that constant.
+func single(t *T) *T {
+	if t.Op != OConst && t.rng && t.lo == t.hi && t.W != 0 {
+		return Const(t.W, t.lo)
+	}
+	return t
+}
+
 func chk(a, b *T) {
 	if a.W != b.W {
 		panic(fmt.Sprintf("term: width mismatch %d vs %d (%s, %s)", a.W, b.W, a, b))
@@ -259,6 +267,7 @@ func chk(a, b *T) {
 
 func Add(a, b *T) *T {
 	chk(a, b)
+	a, b = single(a), single(b)
 	if a.IsConst() && b.IsConst() {
 		return Const(a.W, a.C+b.C)
 	}
@@ -289,6 +298,7 @@ func Add(a, b *T) *T {
 
 func Sub(a, b *T) *T {
 	chk(a, b)
+	a, b = single(a), single(b)
 	if a.IsConst() && b.IsConst() {
 		return Const(a.W, a.C-b.C)
 	}
@@ -326,6 +336,7 @@ func Sub(a, b *T) *T {
 
 func Mul(a, b *T) *T {
 	chk(a, b)
+	a, b = single(a), single(b)
 	if a.IsConst() && b.IsConst() {
 		return Const(a.W, a.C*b.C)
 	}
@@ -340,11 +351,23 @@ func Mul(a, b *T) *T {
 			return a
 		}
 	}
-	r := mk(OMul, a.W, a, b)
 	_, ah := a.Range()
 	al, _ := a.Range()
 	bl, bh := b.Range()
 	hi, lo := bits.Mul64(ah, bh)
+	if hi == 0 && !b.IsConst() {
+		var nw uint8 = a.W
+		switch {
+		case lo < 1<<16 && a.W > 16:
+			nw = 16
+		case lo < 1<<32 && a.W > 32:
+			nw = 32
+		}
+		if nw < a.W {
+			return ZExt(Mul(Extract(a, nw-1, 0), Extract(b, nw-1, 0)), a.W)
+		}
+	}
+	r := mk(OMul, a.W, a, b)
 	if hi == 0 && lo <= Mask(a.W) {
 		r.setRange(al*bl, lo)
 	}
@@ -353,6 +376,7 @@ func Mul(a, b *T) *T {
 
 func UDiv(a, b *T) *T {
 	chk(a, b)
+	a, b = single(a), single(b)
 	if b.IsConst() && b.C != 0 {
 		if a.IsConst() {
 			return Const(a.W, a.C/b.C)
@@ -360,6 +384,9 @@ func UDiv(a, b *T) *T {
 		if b.C == 1 {
 			return a
 		}
+	}
+	if nw := narrowWidth(a, b); nw < a.W {
+		return ZExt(UDiv(Extract(a, nw-1, 0), Extract(b, nw-1, 0)), a.W)
 	}
 	r := mk(OUDiv, a.W, a, b)
 	al, ah := a.Range()
@@ -370,8 +397,26 @@ func UDiv(a, b *T) *T {
 	return r
 }
 
+// narrowWidth returns a smaller width (16 or 32) at which a and b can be operated on without losing bits.
+func narrowWidth(a, b *T) uint8 {
+	_, ah := a.Range()
+	_, bh := b.Range()
+	m := ah
+	if bh > m {
+		m = bh
+	}
+	switch {
+	case m < 1<<16 && a.W > 16:
+		return 16
+	case m < 1<<32 && a.W > 32:
+		return 32
+	}
+	return a.W
+}
+
 func URem(a, b *T) *T {
 	chk(a, b)
+	a, b = single(a), single(b)
 	if b.IsConst() && b.C != 0 {
 		if a.IsConst() {
 			return Const(a.W, a.C%b.C)
@@ -379,6 +424,9 @@ func URem(a, b *T) *T {
 		if b.C == 1 {
 			return Const(a.W, 0)
 		}
+	}
+	if nw := narrowWidth(a, b); nw < a.W {
+		return ZExt(URem(Extract(a, nw-1, 0), Extract(b, nw-1, 0)), a.W)
 	}
 	r := mk(OURem, a.W, a, b)
 	_, ah := a.Range()
@@ -435,6 +483,7 @@ func SRem(a, b *T) *T {
 
 func And(a, b *T) *T {
 	chk(a, b)
+	a, b = single(a), single(b)
 	if a.IsConst() && b.IsConst() {
 		return Const(a.W, a.C&b.C)
 	}
@@ -470,6 +519,7 @@ func And(a, b *T) *T {
 
 func Or(a, b *T) *T {
 	chk(a, b)
+	a, b = single(a), single(b)
 	if a.IsConst() && b.IsConst() {
 		return Const(a.W, a.C|b.C)
 	}
@@ -710,6 +760,7 @@ func Implies(a, b *T) *T { return BOr(BNot(a), b) }
 
 func Eq(a, b *T) *T {
 	chk(a, b)
+	a, b = single(a), single(b)
 	if a.IsConst() && b.IsConst() {
 		return Bool(a.C == b.C)
 	}
@@ -777,6 +828,7 @@ func Ne(a, b *T) *T { return BNot(Eq(a, b)) }
 
 func Ult(a, b *T) *T {
 	chk(a, b)
+	a, b = single(a), single(b)
 	if a.IsConst() && b.IsConst() {
 		return Bool(a.C < b.C)
 	}
@@ -817,6 +869,7 @@ func nonNeg(t *T) bool {
 
 func Slt(a, b *T) *T {
 	chk(a, b)
+	a, b = single(a), single(b)
 	if a.IsConst() && b.IsConst() {
 		return Bool(a.Signed() < b.Signed())
 	}
@@ -880,6 +933,7 @@ func Ite(c, a, b *T) *T {
 }
 
 func Extract(a *T, hi, lo uint8) *T {
+	a = single(a)
 	w := hi - lo + 1
 	if lo == 0 && w == a.W {
 		return a
@@ -924,6 +978,7 @@ func Extract(a *T, hi, lo uint8) *T {
 }
 
 func ZExt(a *T, w uint8) *T {
+	a = single(a)
 	if a.W == w {
 		return a
 	}
